@@ -155,7 +155,9 @@ pub fn run(rep: &mut Report, which0: Which, block_dev: bool) {
                 let archive_arg = if use_http {
                     // every 40th HTTP scenario: the bodies are flushed byte by byte (no failure involved)
                     let splits: Vec<usize> = if sci % 40 == 3 { (1..40).collect() } else { vec![] };
-                    http.server.arm(&arch.bytes, Script { faults: vec![], splits, keep_alive: true });
+                    // every 40th: all answers in chunked transfer encoding (no Content-Length)
+                    let faults = if sci % 40 == 11 { vec![crate::httpd::Fault::Chunked; 64] } else { vec![] };
+                    http.server.arm(&arch.bytes, Script { faults, splits, keep_alive: true });
                     http.server.url()
                 } else {
                     apath.to_str().unwrap().to_string()
